@@ -778,6 +778,9 @@ def stream_cache(tier, seed):
                 counter[0] = rng.randrange(1000)
                 ops = ["i:%d:%s" % (k, hx(val(1))) for k in range(v)] + ["l", "f", "i:%d:%s" % (v, hx(val(1))), "l", "f", "g:0", "g:1", "g:%d" % v]
                 emit(cap, ops)
+    # a cache of 2^32 + 4096 bytes filled past the 32-bit range (implementation only: about 4.2 GB resident for two or
+    # three seconds; the scenario is scripted and judged inside the harness)
+    lines.append("B robig4g")
     # regression corpus (minimised past findings and seeded changes)
     for fpath in sorted(glob.glob(os.path.join(os.path.dirname(os.path.dirname(os.path.abspath(__file__))), "corpus", "*.case"))):
         for ln in open(fpath):
